@@ -814,24 +814,32 @@ func k8sMatch(op string, vals []string, v string, present bool) bool {
 //   empty-string-value-label-not-set       : a custom key whose requirements admit only "" (Any() returns "", no label is set)
 //   any-returns-excluded-value             : the resolved custom label is a value the key's NotIn list excludes
 func freshShape(plan sysPlan, final map[string]string) string {
+	// every entry of the pool the fresh claim's labels violate must be explained by one of the known shapes;
+	// otherwise the drift is not (only) a known finding and no key is attached
+	found := map[string]bool{}
 	for _, q := range plan.poolReqs {
-		if v, ok := plan.tmplLabels[q.Key]; ok && !k8sMatch(q.Op, q.Vals, v, true) {
-			return "template-label-contradicts-requirement"
-		}
-	}
-	for _, q := range plan.poolReqs {
-		if v1.WellKnownLabels.Has(q.Key) {
+		v, present := final[q.Key]
+		if k8sMatch(q.Op, q.Vals, v, present) {
 			continue
 		}
-		if _, has := final[q.Key]; !has && q.Op == "In" && len(q.Vals) == 1 && q.Vals[0] == "" {
-			return "empty-string-value-label-not-set"
+		tv, fromTemplate := plan.tmplLabels[q.Key]
+		switch {
+		case present && fromTemplate && tv == v:
+			found["template-label-contradicts-requirement"] = true
+		case !present && !v1.WellKnownLabels.Has(q.Key) && q.Op == "In" && len(q.Vals) == 1 && q.Vals[0] == "":
+			found["empty-string-value-label-not-set"] = true
+		case present && !fromTemplate && !v1.WellKnownLabels.Has(q.Key) && q.Op == "NotIn":
+			found["any-returns-excluded-value"] = true
+		case !present:
+			// a demand for presence the merged requirement forgot (requirement-intersection-forgets-presence): the
+			// drift controller does not see this entry, so it cannot be what made the fresh claim drift
+		default:
+			return ""
 		}
-		if v, has := final[q.Key]; has && q.Op == "NotIn" {
-			for _, x := range q.Vals {
-				if x == v {
-					return "any-returns-excluded-value"
-				}
-			}
+	}
+	for _, k := range []string{"template-label-contradicts-requirement", "any-returns-excluded-value", "empty-string-value-label-not-set"} {
+		if found[k] {
+			return k
 		}
 	}
 	return ""
